@@ -136,6 +136,10 @@ func init() {
 		n := c.N(120, 400)
 		g.Free(n/3, g.StdDt)
 		exitAgainstCustody(c, w)
-		g.Free(n-n/3, g.StdDt)
+		if c.Job.Index%3 == 1 && !w.Dead {
+			NewChaos(c, w, g).Run(n-n/3, g.StdDt)
+		} else {
+			g.Free(n-n/3, g.StdDt)
+		}
 	})
 }
